@@ -4,7 +4,8 @@ Model of `EoN.simulation._ListDict_` (simulation.py 205–361), statement by sta
 * `weight` is a `defaultdict(int)`: reading a missing key yields 0 (and creates it);
 * `update` with a non-positive increment on an element whose weight equals `max_weight` decrements
   `max_weight_count` twice and never recomputes the maximum (`self._update_max_weight` without call parentheses);
-* `remove` recomputes the maximum only when `max_weight_count` reaches 0 and the list is non-empty.
+* `remove` recomputes the maximum only when `max_weight_count` reaches 0 and the list is non-empty, and resets
+  `max_weight`/`max_weight_count` to 0 when the list becomes empty.
 
 `items` is the Python list; `item_to_position` is the index in `items` (recovered through `idxOf`, which is what
 the dictionary stores as long as `items` has no duplicates — an invariant proved in `Proofs/ListDict`).
@@ -41,7 +42,15 @@ def recomputeMax (s : LD α) : LD α :=
   let m := ws.foldl max (ws.headD 0)
   { s with maxW := m, maxCnt := ((ws.filter (· == m)).length : Int) }
 
-/-- `remove(choice)`; `none` models `KeyError`. -/
+/-- the closing statement of `remove`: `if len(self.items) == 0: self.max_weight = 0; self.max_weight_count = 0`
+(an emptied collection forgets its maximum) -/
+def forgetMax (s : LD α) : LD α :=
+  if s.items.length = 0 then { s with maxW := 0, maxCnt := 0 } else s
+
+/-- `remove(choice)`; `none` models `KeyError`.  The two repairs of the running total (`= 0` when the list becomes
+empty, recomputed from the weight table when it is `<= 0` with items left) are identities in exact arithmetic under
+`LD.Inv` and are not part of this model; they are part of the code generated from the class source
+(`Gen/ListDictGen.lean`), and `Proofs/GenLD.lean` proves the two agree. -/
 def remove (s : LD α) (x : α) : Option (LD α) :=
   if x ∈ s.items then
     let items := swapRemove s.items x
@@ -50,8 +59,8 @@ def remove (s : LD α) (x : α) : Option (LD α) :=
       let s1 : LD α := { s with items := items, weight := alDel s.weight x, total := s.total - w }
       if w = s.maxW then
         let s2 : LD α := { s1 with maxCnt := s1.maxCnt - 1 }
-        if s2.maxCnt = 0 ∧ items.length > 0 then some (recomputeMax s2) else some s2
-      else some s1
+        if s2.maxCnt = 0 ∧ items.length > 0 then some (forgetMax (recomputeMax s2)) else some (forgetMax s2)
+      else some (forgetMax s1)
     else some { s with items := items }
   else none
 
